@@ -32,7 +32,7 @@ def focus_kind(spec):
             spec = spec[1][0][1]
             continue
         cs = G.children(spec)
-        if len(cs) == 1 and k not in ("enum", "flagsenum", "mapping", "const", "oneof", "noneof"):
+        if len(cs) == 1 and k not in ("enum", "flagsenum", "mapping", "const", "oneof", "noneof", "exprsym", "expradd", "exprvalid"):
             if cs[0][0] in ("gbytes", "int", "bytes") and k not in ("struct", "seq"):
                 return k
             spec = cs[0]
